@@ -16,7 +16,7 @@ def configs(t):
         cfg(3, 3, 0, cost=5),
         cfg(2, 4, 1, F=1, faults=['crash'], warm=5, cost=4),
         cfg(2, 4, 1, F=1, faults=['crash', 'restart'], warm=5, cost=8),
-        cfg(2, 4, 1, F=1, faults=['isolate'], warm=5, cost=8),
+        cfg(2, 3, 1, F=1, faults=['isolate'], warm=5, cost=9),
         cfg(2, 4, 1, F=1, faults=['stall'], warm=5, cost=8),
         cfg(2, 5, 0, F=1, faults=['stall'], warm=5, inact=3, cost=4),
         cfg(3, 3, 0, F=1, faults=['crash'], warm=6, cost=8),
